@@ -439,7 +439,7 @@ theorem ip_spec (s : LState I RouteIp) (L : List Route) (h : LRepr IL Ip.keysOf 
       exact hy.1.1
     have sp := ip_loop_spec L hU a q s.map hm (I.matchReq s.any q) hanyL
       ((hU.mono hanyL).nodup_ids hanyN)
-    refine ⟨List.Nodup.of_map _ sp.2.1, ?_⟩
+    refine ⟨nodup_of_map_nodup _ _ sp.2.1, ?_⟩
     intro r
     rw [sp.2.2 r]
     have : r ∈ lMatchMap I Ip.accepts s.map q ↔
@@ -489,5 +489,291 @@ def ipLaws : MLaws (ipOps I) :=
       exact mem_lMatch IL Ip.keysOf Ip.accepts s L h hU q r)
     (fun s L q h hU => (ip_spec IL s L h hU q).1)
     (fun s L q r h hU => ip_mem_trace IL s L h hU q r)
+
+/-! ## HostMatcher: bucket union with the any-host fallback -/
+
+section
+variable (E : Env)
+
+def Host.staticPart (I : MOps) (h : String) (q : Req) (e : HKey × I.M) : List Route :=
+  match e.1 with
+  | .static s => if s == h then I.matchReq e.2 q else []
+  | .dyn _ => []
+
+theorem host_split (q : Req) (h : String) (hq : q.host = some h) (e : HKey × I.M) :
+    (if Host.accepts E e.1 q then I.matchReq e.2 q else []) =
+      Host.dynPart E I h q e ++ Host.staticPart I h q e := by
+  unfold Host.accepts Host.dynPart Host.staticPart
+  rw [hq]
+  cases e.1 <;> simp
+
+theorem host_staticPart_eq (m : List (HKey × I.M)) (hn : (akeys m).Nodup) (h : String) (q : Req) :
+    m.flatMap (Host.staticPart I h q) =
+      ((alookup (HKey.static h) m).map (fun b => I.matchReq b q)).getD [] := by
+  rw [← flatMap_select m hn (HKey.static h) (fun b => I.matchReq b q)]
+  congr 1; funext e
+  unfold Host.staticPart
+  cases hk : e.1 with
+  | static x =>
+    by_cases hx : x = h
+    · simp [hx]
+    · simp [hx]
+  | dyn p => simp
+
+theorem host_bound_perm (s : LState I HKey) (hn : (akeys s.map).Nodup) (q : Req) :
+    (Host.matchBound E I s q).Perm (lMatchMap I (Host.accepts E) s.map q) := by
+  cases hq : q.host with
+  | none =>
+    have h1 : Host.matchBound E I s q = [] := by unfold Host.matchBound; rw [hq]
+    have h2 : lMatchMap I (Host.accepts E) s.map q = [] := by
+      unfold lMatchMap Host.accepts; simp [hq]
+    rw [h1, h2]
+  | some h =>
+    have h1 : lMatchMap I (Host.accepts E) s.map q =
+        s.map.flatMap (fun e => Host.dynPart E I h q e ++ Host.staticPart I h q e) := by
+      unfold lMatchMap; congr 1; funext e; exact host_split E q h hq e
+    have h2 : Host.matchBound E I s q =
+        s.map.flatMap (Host.dynPart E I h q) ++ s.map.flatMap (Host.staticPart I h q) := by
+      rw [host_staticPart_eq s.map hn h q]
+      unfold Host.matchBound
+      rw [hq]
+      rfl
+    rw [h1, h2]
+    exact (flatMap_append_perm' _ _ _).symm
+
+theorem host_singleKey (r : Route) : (keysL Host.keysOf r).length ≤ 1 := by
+  unfold keysL Host.keysOf
+  cases r.host with
+  | none => simp
+  | some sd =>
+    cases sd with
+    | static h => by_cases e : h = "" <;> simp [e]
+    | dyn p => simp
+
+/-- some host-bound route of `L` is fully satisfied by `q` -/
+def hostBoundSat (L : List Route) (r : Route) (q : Req) : Bool :=
+  (keysL Host.keysOf r).any (fun k =>
+    Host.accepts E k q && IL.sat (L.filter (inKey Host.keysOf k)) r q)
+
+/-- `sat` of the host layer: host-bound routes as in every layer; host-less routes additionally
+need `always_match_any_host` or that no host-bound route of this matcher is fully satisfied. -/
+def hostSat (L : List Route) (r : Route) (q : Req) : Bool :=
+  match Host.keysOf r with
+  | none =>
+    IL.sat (L.filter (isAnyR Host.keysOf)) r q &&
+      (E.alwaysAnyHost || !(L.any (fun r' => hostBoundSat IL E L r' q)))
+  | some _ => hostBoundSat IL E L r q
+
+theorem isEmpty_iff_forall {α : Type} (l : List α) : l.isEmpty = true ↔ ∀ x, x ∉ l := by
+  cases l with
+  | nil => simp
+  | cons a l =>
+    simp only [List.isEmpty_cons, Bool.false_eq_true, false_iff]
+    intro h; exact h a (List.mem_cons_self ..)
+
+theorem host_mem_bound (s : LState I HKey) (L : List Route) (h : LRepr IL Host.keysOf s L)
+    (hU : UIds L) (q : Req) (r : Route) :
+    r ∈ Host.matchBound E I s q ↔ r ∈ L ∧ hostBoundSat IL E L r q = true := by
+  rw [(host_bound_perm E s h.nodup q).mem_iff, mem_matchMap IL Host.keysOf (Host.accepts E) s L h hU]
+  unfold hostBoundSat
+  simp only [List.any_eq_true, Bool.and_eq_true]
+
+theorem host_bound_empty (s : LState I HKey) (L : List Route) (h : LRepr IL Host.keysOf s L)
+    (hU : UIds L) (q : Req) :
+    (Host.matchBound E I s q).isEmpty = !(L.any (fun r' => hostBoundSat IL E L r' q)) := by
+  rw [Bool.eq_iff_iff, isEmpty_iff_forall]
+  simp only [Bool.not_eq_true', List.any_eq_false]
+  constructor
+  · intro hx r' hr' hs
+    exact hx r' ((host_mem_bound IL E s L h hU q r').2 ⟨hr', hs⟩)
+  · intro hx r' hr'
+    rw [host_mem_bound IL E s L h hU q r'] at hr'
+    exact hx r' hr'.1 hr'.2
+
+theorem host_match_unfold (s : LState I HKey) (q : Req) :
+    Host.matchReq E I s q =
+      if E.alwaysAnyHost || (Host.matchBound E I s q).isEmpty
+      then Host.matchBound E I s q ++ I.matchReq s.any q else Host.matchBound E I s q := rfl
+
+theorem host_mem_match (s : LState I HKey) (L : List Route) (h : LRepr IL Host.keysOf s L)
+    (hU : UIds L) (q : Req) (r : Route) :
+    r ∈ Host.matchReq E I s q ↔ r ∈ L ∧ hostSat IL E L r q = true := by
+  rw [host_match_unfold, host_bound_empty IL E s L h hU q]
+  have hb := host_mem_bound IL E s L h hU q r
+  have ha := mem_matchAny IL Host.keysOf s L h hU q r
+  unfold hostSat
+  cases hk : Host.keysOf r with
+  | none =>
+    have hnb : hostBoundSat IL E L r q = false := by simp [hostBoundSat, keysL, hk]
+    rw [hnb] at hb
+    simp only [hk, true_and] at ha
+    cases hc : (E.alwaysAnyHost || !(L.any (fun r' => hostBoundSat IL E L r' q)))
+    · simp only [Bool.false_eq_true, if_false, hb, Bool.and_false, and_false]
+    · simp only [if_true, List.mem_append, hb, ha, Bool.and_true]
+      simp
+  | some ks =>
+    simp only [hk, false_and, and_false, reduceCtorEq] at ha
+    simp only
+    cases hc : (E.alwaysAnyHost || !(L.any (fun r' => hostBoundSat IL E L r' q)))
+    · simp only [Bool.false_eq_true, if_false, hb]
+    · simp only [if_true, List.mem_append, hb, ha, or_false]
+
+theorem host_nodup_match (s : LState I HKey) (L : List Route) (h : LRepr IL Host.keysOf s L)
+    (hU : UIds L) (q : Req) : (Host.matchReq E I s q).Nodup := by
+  have hB : (Host.matchBound E I s q).Nodup := by
+    rw [(host_bound_perm E s h.nodup q).nodup_iff]
+    exact nodup_lMatchMap IL Host.keysOf (Host.accepts E)
+      (singleAccept_of_singleKey Host.keysOf _ host_singleKey) s L h hU q
+  rw [host_match_unfold]
+  split
+  · rw [List.nodup_append]
+    refine ⟨hB, IL.nodup_match _ _ q h.any (hU.filter _), ?_⟩
+    intro x hx y hy hxy
+    subst hxy
+    rw [host_mem_bound IL E s L h hU q x] at hx
+    rw [mem_matchAny IL Host.keysOf s L h hU q x] at hy
+    have := hx.2
+    simp [hostBoundSat, keysL, hy.2.1] at this
+  · exact hB
+
+theorem host_staticNode_mem (s : LState I HKey) (q : Req) (r : Route) :
+    r ∈ routesOfList (s.map.filterMap (Host.staticNode I q)) ↔
+      ∃ e ∈ s.map, ∃ h', e.1 = HKey.static h' ∧ q.host = some h' ∧
+        r ∈ routesOfList (I.trace e.2 q) := by
+  rw [mem_routesOfList_filterMap]
+  constructor
+  · rintro ⟨e, he, t, ht, hr⟩
+    unfold Host.staticNode at ht
+    cases hk : e.1 with
+    | dyn p => simp [hk] at ht
+    | static h' =>
+      simp only [hk, Option.some.injEq] at ht
+      by_cases hc : (q.host == some h') = true
+      · simp only [hc, if_true] at ht; subst ht
+        simp only [Trace.routes_mk, TInfo.routes, List.nil_append] at hr
+        exact ⟨e, he, h', hk, by simpa using hc, hr⟩
+      · simp only [hc, if_false, Bool.false_eq_true] at ht; subst ht
+        simp [Trace.routes_mk, TInfo.routes] at hr
+  · rintro ⟨e, he, h', hk, hq, hr⟩
+    have hc : (q.host == some h') = true := by simp [hq]
+    refine ⟨e, he, Trace.mk true true (I.len e.2) (.other "host_static") (I.trace e.2 q), ?_, ?_⟩
+    · unfold Host.staticNode; simp [hk, hc]
+    · simp only [Trace.routes_mk, TInfo.routes, List.nil_append]; exact hr
+
+theorem host_dynNode_mem (s : LState I HKey) (q : Req) (hh : String) (r : Route) :
+    r ∈ routesOfList (s.map.filterMap (Host.dynNode E I hh q)) ↔
+      ∃ e ∈ s.map, ∃ p, e.1 = HKey.dyn p ∧ E.hostFind p hh = true ∧
+        r ∈ routesOfList (I.trace e.2 q) := by
+  rw [mem_routesOfList_filterMap]
+  constructor
+  · rintro ⟨e, he, t, ht, hr⟩
+    unfold Host.dynNode at ht
+    cases hk : e.1 with
+    | static _ => simp [hk] at ht
+    | dyn p =>
+      simp only [hk, Option.some.injEq] at ht
+      subst ht
+      simp only [Trace.routes_mk, TInfo.routes, List.nil_append] at hr
+      by_cases hc : E.hostFind p hh = true
+      · simp only [hc, if_true] at hr; exact ⟨e, he, p, hk, hc, hr⟩
+      · simp [hc] at hr
+  · rintro ⟨e, he, p, hk, hc, hr⟩
+    refine ⟨e, he, Trace.mk true true 1 (.other "regex") (I.trace e.2 q), ?_, ?_⟩
+    · unfold Host.dynNode; simp [hk, hc]
+    · simp only [Trace.routes_mk, TInfo.routes, List.nil_append]; exact hr
+
+theorem host_traceFor_mem (s : LState I HKey) (q : Req) (hh : String) (r : Route) :
+    r ∈ routesOfList (Host.traceFor E I s q hh) ↔
+      r ∈ routesOfList (s.map.filterMap (Host.dynNode E I hh q)) := by
+  unfold Host.traceFor
+  cases hx : (alookup (HKey.static hh) s.map).isNone
+  · simp only [Bool.false_eq_true, if_false, routesOfList_append, routesOfList_singleton,
+      Trace.routes_mk, TInfo.routes, List.nil_append, List.append_nil, routesOfList_nil]
+  · simp only [if_true, routesOfList_append, routesOfList_singleton, Trace.routes_mk,
+      TInfo.routes, List.nil_append, List.append_nil, routesOfList_nil]
+
+theorem host_traceBound_mem (s : LState I HKey) (L : List Route) (h : LRepr IL Host.keysOf s L)
+    (hU : UIds L) (q : Req) (r : Route) :
+    r ∈ routesOfList (Host.traceBound E I s q) ↔ r ∈ Host.matchBound E I s q := by
+  rw [(host_bound_perm E s h.nodup q).mem_iff,
+    ← mem_trace_buckets IL Host.keysOf (Host.accepts E) s L h hU q r]
+  unfold Host.traceBound
+  rw [routesOfList_append, List.mem_append, host_staticNode_mem]
+  cases hq : q.host with
+  | none =>
+    simp only [routesOfList_nil, List.not_mem_nil, or_false]
+    unfold Host.accepts
+    simp [hq]
+  | some hh =>
+    simp only
+    rw [host_traceFor_mem, host_dynNode_mem]
+    unfold Host.accepts
+    simp only [hq]
+    constructor
+    · rintro (⟨e, he, h', hk, hq', hr⟩ | ⟨e, he, p, hk, hc, hr⟩)
+      · refine ⟨e, he, ?_, hr⟩
+        simp only [Option.some.injEq] at hq'
+        simp [hk, hq']
+      · exact ⟨e, he, by simp [hk, hc], hr⟩
+    · rintro ⟨e, he, hc, hr⟩
+      cases hk : e.1 with
+      | static s' =>
+        left
+        simp only [hk, beq_iff_eq] at hc
+        exact ⟨e, he, s', hk, by rw [hc], hr⟩
+      | dyn p =>
+        right
+        simp only [hk] at hc
+        exact ⟨e, he, p, hk, hc, hr⟩
+
+theorem host_trace_unfold (s : LState I HKey) (q : Req) :
+    Host.trace E I s q =
+      if E.alwaysAnyHost || (routesOfList (Host.traceBound E I s q)).isEmpty
+      then Host.traceBound E I s q ++ I.trace s.any q else Host.traceBound E I s q := rfl
+
+theorem host_mem_trace (s : LState I HKey) (L : List Route) (h : LRepr IL Host.keysOf s L)
+    (hU : UIds L) (q : Req) (r : Route) :
+    r ∈ routesOfList (Host.trace E I s q) ↔ r ∈ Host.matchReq E I s q := by
+  have hb := host_traceBound_mem IL E s L h hU q
+  have hempty : (routesOfList (Host.traceBound E I s q)).isEmpty = (Host.matchBound E I s q).isEmpty := by
+    rw [Bool.eq_iff_iff, isEmpty_iff_forall, isEmpty_iff_forall]
+    constructor
+    · intro hx x hx2; exact hx x ((hb x).2 hx2)
+    · intro hx x hx2; exact hx x ((hb x).1 hx2)
+  rw [host_trace_unfold, host_match_unfold, hempty]
+  cases hc : (E.alwaysAnyHost || (Host.matchBound E I s q).isEmpty)
+  · simp only [Bool.false_eq_true, if_false, hb]
+  · simp only [if_true, routesOfList_append, List.mem_append, hb,
+      mem_any_trace IL Host.keysOf s L h hU q r]
+
+theorem hostSat_congr (L L' : List Route) (r : Route) (q : Req) (h : ∀ x, x ∈ L ↔ x ∈ L') :
+    hostSat IL E L r q = hostSat IL E L' r q := by
+  have hf : ∀ p : Route → Bool, ∀ x, x ∈ L.filter p ↔ x ∈ L'.filter p := by
+    intro p x; simp only [List.mem_filter, h x]
+  have hbs : ∀ r', hostBoundSat IL E L r' q = hostBoundSat IL E L' r' q := by
+    intro r'
+    unfold hostBoundSat
+    congr 1; funext k
+    rw [IL.sat_congr _ _ r' q (hf (inKey Host.keysOf k))]
+  have hany : L.any (fun r' => hostBoundSat IL E L r' q) = L'.any (fun r' => hostBoundSat IL E L' r' q) := by
+    rw [Bool.eq_iff_iff]
+    simp only [List.any_eq_true]
+    constructor
+    · rintro ⟨x, hx, hs⟩; exact ⟨x, (h x).1 hx, by rw [← hbs]; exact hs⟩
+    · rintro ⟨x, hx, hs⟩; exact ⟨x, (h x).2 hx, by rw [hbs]; exact hs⟩
+  unfold hostSat
+  cases hk : Host.keysOf r with
+  | none => simp only; rw [IL.sat_congr _ _ r q (hf _), hany]
+  | some ks => simp only; exact hbs r
+
+def hostLaws : MLaws (hostOps E I) :=
+  outerLaws IL Host.keysOf (Host.matchReq E I) (Host.trace E I)
+    (hostSat IL E)
+    (fun L L' r q h => hostSat_congr IL E L L' r q h)
+    (fun s L q r h hU => host_mem_match IL E s L h hU q r)
+    (fun s L q h hU => host_nodup_match IL E s L h hU q)
+    (fun s L q r h hU => host_mem_trace IL E s L h hU q r)
+
+end
 
 end Rio.Router
